@@ -17,7 +17,7 @@ from __future__ import annotations
 
 import ast
 
-from .loader import AnalysisError, norm
+from .loader import AnalysisError, norm, is_logging_stmt
 
 
 class _Undef:
@@ -140,8 +140,7 @@ class Interp:
                     isinstance(st.targets[0], ast.Attribute) and \
                     norm(st.targets[0].value) == 'self':
                 self.env[norm(st.targets[0])] = self.ev(st.value)
-            elif isinstance(st, ast.Expr) and isinstance(st.value, ast.Call) and \
-                    norm(st.value.func).startswith(('_logger.', 'self.log_', 'logging.')):
+            elif is_logging_stmt(st):
                 continue        # logging has no influence on the decision
             elif isinstance(st, ast.Expr) and isinstance(st.value, ast.Constant):
                 continue        # docstring
